@@ -241,12 +241,12 @@ fn pascal_exercise(bytes: &Vec<u8>, names: &[String]) -> (Vec<Call>, bool) {
     }
     let Some(d) = call("mount", &mut calls, || a2kit::fs::pascal::Disk::from_img(bimg)) else { return (calls, mounted) };
     let mut disk: Box<dyn DiskFS> = Box::new(d);
-    read_queries(&mut disk, names, &mut calls, false);
+    read_queries(&mut disk, names, &mut calls, false, &|_| true);
     (calls, mounted)
 }
 
 /// stat, catalog, tree, glob, get of the fixed names and of every listed name (at most 12 more)
-fn read_queries(disk: &mut Box<dyn DiskFS>, names: &[String], calls: &mut Vec<Call>, hier: bool) {
+fn read_queries(disk: &mut Box<dyn DiskFS>, names: &[String], calls: &mut Vec<Call>, hier: bool, tied: &dyn Fn(&str) -> bool) {
     if let Some(s) = call("stat", calls, || disk.stat()) { let _ = guarded(|| s.to_json(None)); }
     let cat = call("cat", calls, || disk.catalog_to_vec("/"));
     call("tree", calls, || disk.tree(true, None));
@@ -255,12 +255,136 @@ fn read_queries(disk: &mut Box<dyn DiskFS>, names: &[String], calls: &mut Vec<Ca
     if hier { if let Some(g) = call("glob2", calls, || disk.glob("*/*", false)) { listed.extend(g); } }
     if let Some(rows) = &cat { for row in rows { if row.len() > 12 { listed.push(row[12..].to_string()); } } }
     listed.sort(); listed.dedup();
-    listed.retain(|n| !names.contains(n) && n.is_ascii() && !n.is_empty() && !n.contains(' ') && !n.contains(','));
+    listed.retain(|n| !names.contains(n) && !n.is_empty());
     let mut all: Vec<String> = names.to_vec();
     all.extend(listed.into_iter().take(12));
     for n in all {
-        if let Some(f) = call(&format!("get:{}", hx(n.as_bytes())), calls, || disk.get(&n)) { let _ = guarded(|| { let _ = f.unpack_raw(true); f.to_json(None) }); }
+        // names the model does not cover (non-ASCII, escapes) are fetched for the oracle only (`xget`)
+        let op = if n.is_ascii() && tied(&n) { "get" } else { "xget" };
+        if let Some(f) = call(&format!("{}:{}", op, hx(n.as_bytes())), calls, || disk.get(&n)) { let _ = guarded(|| { let _ = f.unpack_raw(true); f.to_json(None) }); }
     }
+}
+
+
+// ------------------------------------------------------------------------------------------------
+// DOS 3.x
+// ------------------------------------------------------------------------------------------------
+
+fn dos_seed(c: usize) -> Option<(Vec<u8>, Vec<String>)> {
+    let mut d = if c == 16 {
+        let mut d = a2kit::fs::dos3x::Disk::from_img(Box::new(a2kit::img::dsk_do::DO::create(35, 16))).ok()?;
+        d.init33(254, false).ok()?; d
+    } else {
+        let mut d = a2kit::fs::dos3x::Disk::from_img(Box::new(a2kit::img::dsk_d13::D13::create(35))).ok()?;
+        d.init32(254, false).ok()?; d
+    };
+    let disk: &mut dyn DiskFS = &mut d;
+    let mut names = Vec::new();
+    if disk.write_text("HELLO", "HELLO WORLD\nSECOND LINE\n").is_ok() { names.push("HELLO".to_string()); }
+    let data: Vec<u8> = (0..700u32).map(|i| (i * 7 % 251) as u8).collect();
+    if disk.bsave("BIN1", &data, Some(0x300), None).is_ok() { names.push("BIN1".to_string()); }
+    let mut t = a2kit::lang::applesoft::tokenizer::Tokenizer::new();
+    if let Ok(tok) = t.tokenize("10 PRINT \"HI\"\n20 END\n", 2049) { if disk.save("PROG", &tok, ItemType::ApplesoftTokens, None).is_ok() { names.push("PROG".to_string()); } }
+    // more than 122 data sectors: two track/sector lists
+    let big: Vec<u8> = (0..33000u32).map(|i| (i % 253) as u8).collect();
+    if disk.bsave("BIG FILE", &big, Some(0x2000), None).is_ok() { names.push("BIG FILE".to_string()); }
+    if names.len() < 4 { return None; }
+    names.push("NOSUCH".to_string());
+    Some((disk.get_img().to_bytes(), names))
+}
+
+fn dos_cases(c: usize, rng: &mut Rng, n_single: usize, n_multi: usize) -> Vec<Case> {
+    let fs: &'static str = if c == 16 { "dos" } else { "d13" };
+    let Some((seed, names)) = dos_seed(c) else { return vec![] };
+    let sec = |t: usize, s: usize| (t * c + s) * 256;
+    let trk: Vec<u64> = vec![0, 1, 2, 16, 17, 18, 33, 34, 35, 36, 49, 50, 63, 64, 127, 128, 254, 255];
+    let sct: Vec<u64> = dedup(vec![0, 1, 2, c as u64 - 2, c as u64 - 1, c as u64, c as u64 + 1, 15, 16, 17, 31, 32, 33, 223, 224, 255], 1);
+    let mut fields: Vec<Field> = Vec::new();
+    let v = sec(17, 0);
+    fields.push(Field { off: v + 1, width: 1, name: "vtoc.track1".into(), vals: trk.clone() });
+    fields.push(Field { off: v + 2, width: 1, name: "vtoc.sector1".into(), vals: sct.clone() });
+    fields.push(Field { off: v + 3, width: 1, name: "vtoc.version".into(), vals: vec![0, 1, 2, 3, 4, 255] });
+    fields.push(Field { off: v + 6, width: 1, name: "vtoc.vol".into(), vals: vec![0, 1, 254, 255] });
+    fields.push(Field { off: v + 0x27, width: 1, name: "vtoc.max_pairs".into(), vals: vec![0, 1, 2, 61, 121, 122, 123, 128, 255] });
+    fields.push(Field { off: v + 0x30, width: 1, name: "vtoc.last_track".into(), vals: trk.clone() });
+    fields.push(Field { off: v + 0x31, width: 1, name: "vtoc.last_direction".into(), vals: vec![0, 1, 2, 255] });
+    fields.push(Field { off: v + 0x34, width: 1, name: "vtoc.tracks".into(), vals: trk.clone() });
+    fields.push(Field { off: v + 0x35, width: 1, name: "vtoc.sectors".into(), vals: sct.clone() });
+    fields.push(Field { off: v + 0x36, width: 2, name: "vtoc.bytes".into(), vals: vec![0, 1, 255, 256, 257, 512, 0x7fff, 0x8000, 0xffff] });
+    for t in [0usize, 1, 17, 18, 34] { fields.push(Field { off: v + 0x38 + 4 * t, width: 4, name: format!("vtoc.bitmap[{}]", t), vals: vec![0, 0xffffffff, 0x0000ffff, 0xffff0000, 1, 0x80000000] }); }
+    // catalog sectors: the first two of the chain; links (incl. cycles) and the entries in use
+    let first = (17usize, c - 1);
+    let cat_secs = [first, (17, c - 2)];
+    let mut tsls: Vec<(usize, usize)> = Vec::new();
+    for (ci, (ct, cs)) in cat_secs.iter().enumerate() {
+        let o = sec(*ct, *cs);
+        let mut lt = trk.clone(); lt.extend_from_slice(&[*ct as u64]);
+        fields.push(Field { off: o + 1, width: 1, name: format!("cat{}.next_track", ci), vals: dedup(lt, 1) });
+        let mut ls = sct.clone(); ls.extend_from_slice(&[*cs as u64, first.1 as u64, 0]);
+        fields.push(Field { off: o + 2, width: 1, name: format!("cat{}.next_sector", ci), vals: dedup(ls, 1) });
+        for k in 0..7 {
+            let e = o + 11 + 35 * k;
+            let live = seed[e] > 0 && seed[e] < 255;
+            if !live && !(ci == 0 && k == 6) && !(ci == 1 && k == 0) { continue; }
+            if live { tsls.push((seed[e] as usize, seed[e + 1] as usize)); }
+            fields.push(Field { off: e, width: 1, name: format!("cat{}.e{}.tsl_track", ci, k), vals: trk.clone() });
+            fields.push(Field { off: e + 1, width: 1, name: format!("cat{}.e{}.tsl_sector", ci, k), vals: sct.clone() });
+            fields.push(Field { off: e + 2, width: 1, name: format!("cat{}.e{}.type", ci, k), vals: vec![0, 1, 2, 4, 8, 0x40, 0x7f, 0x80, 0x82, 0x84, 0xff] });
+            for j in [0usize, 1, 29] { fields.push(Field { off: e + 3 + j, width: 1, name: format!("cat{}.e{}.name[{}]", ci, k, j), vals: vec![0, 0x20, 0x41, 0x7f, 0x80, 0xa0, 0xc1, 0xdc, 0xfe, 0xff] }); }
+            fields.push(Field { off: e + 33, width: 2, name: format!("cat{}.e{}.sectors", ci, k), vals: vec![0, 1, 255, 256, 257, 0x7fff, 0x8000, 0xffff] });
+        }
+    }
+    // track/sector lists of every file (and the continuation of the big one): links, cycles, pairs
+    let mut all_tsl = tsls.clone();
+    for (t, s) in &tsls { let o = sec(*t, *s); if seed[o + 1] != 0 { all_tsl.push((seed[o + 1] as usize, seed[o + 2] as usize)); } }
+    for (i, (t, s)) in all_tsl.iter().enumerate() {
+        let o = sec(*t, *s);
+        let mut lt = trk.clone(); lt.push(*t as u64); lt.push(tsls[0].0 as u64);
+        fields.push(Field { off: o + 1, width: 1, name: format!("tsl{}.next_track", i), vals: dedup(lt, 1) });
+        let mut ls = sct.clone(); ls.push(*s as u64); ls.push(tsls[0].1 as u64);
+        fields.push(Field { off: o + 2, width: 1, name: format!("tsl{}.next_sector", i), vals: dedup(ls, 1) });
+        fields.push(Field { off: o + 5, width: 2, name: format!("tsl{}.sector_base", i), vals: vec![0, 1, 122, 0xffff] });
+        for p in [0usize, 1, 2, 60, 120, 121] {
+            fields.push(Field { off: o + 12 + 2 * p, width: 1, name: format!("tsl{}.pair{}.track", i, p), vals: trk.clone() });
+            fields.push(Field { off: o + 13 + 2 * p, width: 1, name: format!("tsl{}.pair{}.sector", i, p), vals: sct.clone() });
+        }
+    }
+    let extra = format!("{}", c);
+    let mut out = vec![Case { fs, bytes: seed.clone(), unit: 256, desc: "seed".into(), names: names.clone(), extra: extra.clone(), trivial: true }];
+    // hand-made cycles
+    for (what, pokes) in [
+        ("catalog-self-loop", vec![(sec(17, c - 1) + 1, 17u8), (sec(17, c - 1) + 2, (c - 1) as u8)]),
+        ("catalog-two-cycle", vec![(sec(17, c - 2) + 1, 17u8), (sec(17, c - 2) + 2, (c - 1) as u8)]),
+        ("catalog-into-vtoc", vec![(sec(17, c - 1) + 1, 17u8), (sec(17, c - 1) + 2, 0u8)]),
+        ("tslist-self-loop", vec![(sec(tsls[0].0, tsls[0].1) + 1, tsls[0].0 as u8), (sec(tsls[0].0, tsls[0].1) + 2, tsls[0].1 as u8)]),
+        ("tslist-into-vtoc", vec![(sec(tsls[0].0, tsls[0].1) + 1, 17u8), (sec(tsls[0].0, tsls[0].1) + 2, 0u8)]),
+        ("tslist-big-cycle", vec![(sec(all_tsl[all_tsl.len() - 1].0, all_tsl[all_tsl.len() - 1].1) + 1, tsls[tsls.len() - 1].0 as u8), (sec(all_tsl[all_tsl.len() - 1].0, all_tsl[all_tsl.len() - 1].1) + 2, tsls[tsls.len() - 1].1 as u8)]),
+    ] {
+        let mut b = seed.clone();
+        for (o, x) in pokes { b[o] = x; }
+        out.push(Case { fs, bytes: b, unit: 256, desc: what.into(), names: names.clone(), extra: extra.clone(), trivial: false });
+    }
+    out.extend(cases_from_fields(fs, &seed, 256, &names, &extra, &fields, rng, n_single, n_multi));
+    out
+}
+
+fn dos_exercise(c: usize, bytes: &Vec<u8>, names: &[String]) -> (Vec<Call>, bool) {
+    let mut calls = Vec::new();
+    let mut mounted = false;
+    let mut bimg: Box<dyn DiskImage> = if c == 16 {
+        match a2kit::img::dsk_do::DO::from_bytes(bytes) { Ok(i) => Box::new(i), Err(_) => return (calls, false) }
+    } else {
+        match a2kit::img::dsk_d13::D13::from_bytes(bytes) { Ok(i) => Box::new(i), Err(_) => return (calls, false) }
+    };
+    if let Some(t) = call("id", &mut calls, || Ok::<bool, ()>(a2kit::fs::dos3x::Disk::test_img(&mut bimg))) {
+        mounted = t;
+        if let Some(k) = calls.last_mut() { k.op = format!("id={}", if t { "T" } else { "F" }); }
+    }
+    let Some(d) = call("mount", &mut calls, || a2kit::fs::dos3x::Disk::from_img(bimg)) else { return (calls, mounted) };
+    let mut disk: Box<dyn DiskFS> = Box::new(d);
+    // the model covers names without hex escapes
+    read_queries(&mut disk, names, &mut calls, false, &|n| !n.contains('\\'));
+    (calls, mounted)
 }
 
 // ------------------------------------------------------------------------------------------------
@@ -290,6 +414,8 @@ impl<'a> Run<'a> {
 fn exercise(c: &Case) -> (Vec<Call>, bool) {
     match c.fs {
         "pas" => pascal_exercise(&c.bytes, &c.names),
+        "dos" => dos_exercise(16, &c.bytes, &c.names),
+        "d13" => dos_exercise(13, &c.bytes, &c.names),
         _ => (Vec::new(), false),
     }
 }
@@ -299,6 +425,10 @@ fn all_cases(ctx: &Ctx) -> Vec<Case> {
     let mut v = Vec::new();
     let mut g = rng0.fork(1);
     v.extend(pascal_cases(&mut g, ctx.n(500, 6000), ctx.n(300, 6000)));
+    let mut g = rng0.fork(2);
+    v.extend(dos_cases(16, &mut g, ctx.n(500, 8000), ctx.n(400, 8000)));
+    let mut g = rng0.fork(3);
+    v.extend(dos_cases(13, &mut g, ctx.n(150, 4000), ctx.n(150, 4000)));
     v
 }
 
@@ -333,12 +463,12 @@ fn child(ctx: &mut Ctx, start: usize, rec_path: &str) {
                 for p in parts {
                     let f: Vec<&str> = p.split('\x1e').collect();
                     if f.len() < 3 { continue; }
-                    toks.push(format!("{}:{}", f[0], f[1]));
+                    if !f[0].starts_with("xget:") { toks.push(format!("{}:{}", f[0], f[1])); }
                     if f[1] == "panic" { any_panic = true; if fail.is_none() { fail = Some((f[0].to_string(), f[2].to_string())); } }
                 }
                 // the tie: same classes from the model
                 let got: Vec<String> = toks.iter().filter(|t| t.starts_with("get:")).map(|t| t[4..].split(':').next().unwrap_or("").to_string()).collect();
-                let req = format!("c12fs {} {} {} {}{}", c.fs, c.bytes.len() / c.unit, sparse_units(&c.bytes, c.unit),
+                let req = format!("c12fs {} {} {} {}{}", if c.fs == "d13" { "dos" } else { c.fs }, c.bytes.len() / c.unit, sparse_units(&c.bytes, c.unit),
                     if got.is_empty() { "-".to_string() } else { got.join(",") },
                     if c.extra.is_empty() { String::new() } else { format!(" {}", c.extra) });
                 r.line(format!("Q\t{}\t{}", req, toks.join(" ")));
